@@ -110,6 +110,8 @@ PLUGS = ("LEVEL_2", "DCFC", "NOPE", "gas_pump")  # NOPE: not installed anywhere 
 S0 = ml.mock_station_from_geoid(
     "s0", CELL_A, chargers={"LEVEL_2": 1, "DCFC": 1, "gas_pump": 1}, env=ENV0
 )
+# the fast charger at s0 is throttled to 30 kW (Station.set_charger_rate): below the power curve's 50 kW peak
+S0 = S0.set_charger_rate("DCFC", 30.0).unwrap()
 S1 = ml.mock_station_from_geoid("s1", CELL_B, chargers={"LEVEL_2": 1}, env=ENV0)
 B0 = ml.mock_base_from_geoid("b0", CELL_B, station_id="s1", stall_count=3)
 B1 = ml.mock_base_from_geoid("b1", CELL_E, station_id=None, stall_count=1)
@@ -154,6 +156,22 @@ class Rec:
 
     def of(self, name):
         return [r for r in self.reports if r.report_type.name == name]
+
+
+def env_fingerprint():
+    """the environment's shared model tables (power curve, powertrain): stepping must never modify them"""
+    out = []
+    for m in (BEV, ICE):
+        pt = m.powertrain
+        out.append(tuple(float(x) for x in pt.consumption_speed))
+        out.append(tuple(float(x) for x in pt.consumption_energy_per_distance))
+    pc = BEV.powercurve
+    out.append(tuple(float(x) for x in pc._charging_energy_kwh))
+    out.append(tuple(float(x) for x in pc._charging_rate_kw))
+    return tuple(out)
+
+
+ENV_FP0 = env_fingerprint()
 
 
 def env_with_recorder(env=ENV0):
